@@ -590,6 +590,12 @@ func (e *lcEnv) stepLog(si int, s lcStep) {
 	ctx := context.WithValue(context.Background(), ctxKey{}, id)
 	before := e.hookCnt
 	lazyBefore := atomic.LoadInt64(&e.lazyCnt)
+	// records without id at the destination before the call (the appender instances change with every Refresh)
+	noIDBefore := -1
+	if _, ok := lcSinks[exp.Dest]; ok && !e.async {
+		cnt, _ := lcFind(lcSinks[exp.Dest][:1], -1, false)
+		noIDBefore = cnt[0]
+	}
 	t0 := time.Now()
 	ok, p := e.guarded(si, en.name, func() { en.call(ctx, tag, id, &e.lazyCnt) })
 	t1 := time.Now()
@@ -640,11 +646,10 @@ func (e *lcEnv) stepLog(si int, s lcStep) {
 	if strings.HasSuffix(en.name, "(empty)") {
 		// the event carries no field of its own, hence no id: the hook counts above decide; additionally the
 		// number of records without id at the destination must have grown by one when emitted
-		if emitted && exp.Dest != "console" && !e.async {
+		if emitted && exp.Dest != "console" && !e.async && noIDBefore >= 0 {
 			cnt, _ := lcFind(lcSinks[exp.Dest][:1], -1, false)
-			e.noID[exp.Dest]++
-			if cnt[0] != e.noID[exp.Dest] {
-				e.viol("event-delivery:empty-generator", "step %d: %s: an enabled event whose generator returned no fields was not delivered (%d records without id at %s, want %d)", si, en.name, cnt[0], exp.Dest, e.noID[exp.Dest])
+			if cnt[0] != noIDBefore+1 {
+				e.viol("event-delivery:empty-generator", "step %d: %s: an enabled event whose generator returned no fields was not delivered (%d records without id at %s, %d before the call)", si, en.name, cnt[0], exp.Dest, noIDBefore)
 			}
 		}
 		return
